@@ -140,7 +140,7 @@ def h_find(n: int, k: int, s1: int, r1: int, s2: int, r2: int, sel: int, st: int
 BOUNDS = {
     'quick': 'receivers: 1 apply step at n<=3, 2 apply steps at n=2 over (red, bold, blue, [38;5;9) on all canonical ranges; '
              'index / start / end: ALL integers (end also None); 6 selections; both directions; both classes for *_at',
-    'thorough': '2 apply steps at n<=4; otherwise as quick',
+    'thorough': '2 apply steps at n<=3; otherwise as quick',
 }
 OUTSIDE = 'receivers needing more than 2 apply steps; selections outside the 6 listed; whether the range end is inclusive (both readings accepted)'
 ASSUMPTIONS = ['"normalised" = negative bounds + len clamped at 0 (too-large bounds may stay or be clamped); '
@@ -160,7 +160,7 @@ def obligations(tier):
         for s1 in (0, 1):
             obs.append(Ob('find/b1/n%d/s%d' % (n, s1), h_find, dict(n=n, k=1, s1=s1, s2=0, r2=0), need=need, budget=600,
                           bounds='n=%d, 1 apply step' % n, kinds=KINDS))
-    ns = (2,) if tier == 'quick' else (2, 3, 4)
+    ns = (2,) if tier == 'quick' else (2, 3)
     for n in ns:
         for s1 in (0, 1):
             for r1 in range(len(ranges(n))):
